@@ -3,6 +3,11 @@ import NodisVerif.Proofs.C20Keys
 import NodisVerif.Proofs.C20ZStoreEx
 import NodisVerif.Proofs.FloatDecRegions
 import NodisVerif.Proofs.GeoAdd
+import NodisVerif.Proofs.ProtoWireMsg
+import NodisVerif.Proofs.ProtoWireBad
+import NodisVerif.Proofs.ProtoWireOut
+import NodisVerif.Proofs.ProtoWireAcct
+import NodisVerif.Model.FeedWire
 /-
   C20 — The change feed replays on a replica.
 
@@ -462,5 +467,322 @@ example : ((geoAdd { listeners := true } 0 [103] [([97], 5), ([98], 7)]).1.feed.
     [(26, [103], ["62", "7"]), (26, [103], ["61", "5"])] := by decide +kernel
 
 end geoadd
+/-! ### the wire encoding of change records (patch/patch.go `Op.Encode` / `DecodeOp` over protobuf)
+
+  Model: `Model/ProtoWire.lean` — the proto3 wire format restricted to the field kinds of patch/op.proto
+  (string, bytes, int64, bool, double, repeated string / bytes, packed repeated double), schema-driven:
+  `marshal sch vs` (bytes + the error flag Marshal returns and `Op.Encode` drops), `unmarshal sch b`
+  (values + retained unknown bytes, `none` = error), `encodeOp` / `decodeOp` = type byte + message over
+  the table `opTable` of the 36 operation types.  The table is regenerated from patch/op.pb.go and
+  patch/patch.go on every run and compared (`Tie.source_patch_table_is_the_model_table`); model and code are
+  compared byte for byte on every run (checks/patchwire.py: every type x edge values, malformed inputs).
+
+  This replaces the former assumption "protobuf round-trips valid UTF-8 strings and all byte fields" by
+  theorems.  Well-formed (`wfVals`, `Op.wf`; decidable): the value list fits the schema, int64 values are
+  in range, `string` values (and every element of a repeated string) are valid UTF-8 (`validUTF8` = Go's
+  utf8.Valid), every byte string is shorter than 2^63 (a Go slice length; the model's lists are
+  unbounded), no retained unknown bytes. -/
+
+section Wire
+open NodisVerif.ProtoWire NodisVerif.Proofs.ProtoWire
+
+/-- Unmarshal ∘ Marshal = id on well-formed values, for EVERY schema with distinct field numbers in
+    1 … 2^29-1 (in particular every schema of the table: `wire_table_schemas_ok`), all sizes.
+    proto3's "absent = default" needs no normalisation here: a field holding its default value is not
+    emitted and decodes to the default it already is. Marshal reports no error. -/
+theorem decode_encode (sch : Schema) (hs : schemaOk sch = true) (vs : List PVal) (hwf : wfVals sch vs = true) :
+    decodeMsg sch (encodeMsg sch vs) = some vs ∧ (marshal sch vs).2 = false := by
+  refine ⟨?_, marshal_ok hs hwf⟩
+  unfold decodeMsg encodeMsg
+  rw [unmarshal_marshal hs hwf]
+  rfl
+
+/-- … and nothing is retained as unknown -/
+theorem unmarshal_marshal_exact (sch : Schema) (hs : schemaOk sch = true) (vs : List PVal)
+    (hwf : wfVals sch vs = true) : unmarshal sch (marshal sch vs).1 = some { vals := vs, unknown := [] } :=
+  unmarshal_marshal hs hwf
+
+/-- every message schema of the table qualifies -/
+theorem wire_table_schemas_ok (t : Nat) (sch : Schema) (h : schemaOf t = some sch) : schemaOk sch = true :=
+  schemaOf_ok h
+
+/-- Marshal emits the fields in field-number order (`orderedCoderFields`); the model emits them in schema
+    order: in every schema of the table the two orders coincide, and the table's type numbers are 1 … 36 -/
+theorem wire_table_fields_ascending :
+    (opTable.all fun e => decide ((e.2.2.map (·.1)).Pairwise (· < ·))) = true ∧
+    opTable.map (·.1) = (List.range 37).drop 1 := by
+  decide +kernel
+
+/-- DecodeOp (Encode op) = op for every operation type of the table and every well-formed record;
+    Marshal reports no error for it -/
+theorem decodeOp_encodeOp (op : Op) (h : op.wf = true) :
+    decodeOp (encodeOp op) = .ok op ∧ encodeFails op = false :=
+  ⟨Proofs.ProtoWire.decodeOp_encodeOp h, encodeFails_wf h⟩
+
+/-- different well-formed records never share an encoding -/
+theorem encode_injective (a b : Op) (ha : a.wf = true) (hb : b.wf = true) (h : encodeOp a = encodeOp b) :
+    a = b := by
+  have h1 := Proofs.ProtoWire.decodeOp_encodeOp ha
+  have h2 := Proofs.ProtoWire.decodeOp_encodeOp hb
+  rw [h] at h1
+  rw [h1] at h2
+  exact Except.ok.inj h2
+
+/-- the same for messages of one schema -/
+theorem encodeMsg_injective (sch : Schema) (hs : schemaOk sch = true) (vs ws : List PVal)
+    (hv : wfVals sch vs = true) (hw : wfVals sch ws = true) (h : encodeMsg sch vs = encodeMsg sch ws) :
+    vs = ws := by
+  have h1 := (decode_encode sch hs vs hv).1
+  have h2 := (decode_encode sch hs ws hw).1
+  rw [h] at h1
+  rw [h1] at h2
+  exact Option.some.inj h2
+
+/-- DecodeOp is total (the repair 12a5893 as a theorem): every input gives a record or one of three
+    errors — empty input and unknown operation types are errors, not panics; and the model's answer does
+    not depend on fuel: both loops (Unmarshal's field loop, the skipper of nested groups) give the same
+    result for every amount of fuel at least the length of their input, so the `none` of an exhausted
+    loop is never what the model answers. -/
+theorem decode_total :
+    decodeOp [] = .error .empty ∧
+    (∀ (t : UInt8) (body : Bytes), schemaOf t.toNat = none → decodeOp (t :: body) = .error .unknownType) ∧
+    (∀ (t : UInt8), schemaOf t.toNat = none ↔ (t.toNat = 0 ∨ 36 < t.toNat)) ∧
+    (∀ (t : UInt8) (body : Bytes) (sch : Schema), schemaOf t.toNat = some sch →
+      decodeOp (t :: body) = match unmarshal sch body with
+        | none => .error .wire
+        | some m => .ok { typ := t, msg := m }) ∧
+    (∀ (sch : Schema) (f : Nat) (b : Bytes) (m : Msg), b.length ≤ f →
+      decodeLoop sch f b m = decodeLoop sch b.length b m) ∧
+    (∀ (f depth num : Nat) (b : Bytes), b.length < f →
+      skipGroup f depth num b = skipGroup (b.length + 1) depth num b) := by
+  refine ⟨rfl, ?_, ?_, ?_, ?_, ?_⟩
+  · intro t body h
+    simp only [decodeOp, h]
+  · intro t
+    have hlt := t.toNat_lt
+    generalize t.toNat = n at hlt
+    have key : ∀ k, k < 256 → (schemaOf k).isNone = (k == 0 || decide (36 < k)) := by decide +kernel
+    have hk := key n hlt
+    cases hs : schemaOf n with
+    | none =>
+      simp only [hs, Option.isNone_none] at hk
+      simp only [true_iff]
+      have := hk.symm
+      simp only [Bool.or_eq_true, beq_iff_eq, decide_eq_true_eq] at this
+      exact this
+    | some sch =>
+      simp only [hs, Option.isNone_some] at hk
+      have := hk.symm
+      simp only [Bool.or_eq_false_iff, beq_eq_false_iff_ne, decide_eq_false_iff_not] at this
+      simp only [reduceCtorEq, false_iff]
+      omega
+  · intro t body sch h
+    simp only [decodeOp, h]
+    cases unmarshal sch body <;> rfl
+  · intro sch f b m h
+    exact decodeLoop_fuel sch f b.length b m h (Nat.le_refl _)
+  · intro f depth num b h
+    exact skipGroup_fuel f (b.length + 1) depth num b h (Nat.lt_succ_self _)
+
+/-- the other half of the round trip — known finding A-200 in general form. A record a Go program can
+    build (`Op.typed`: kinds fit, int64 in range, lengths below 2^63; strings hold any bytes) that is not
+    well-formed (some `string` field or element of a repeated string is not valid UTF-8): Marshal fails,
+    `Op.Encode` ships the truncated message, and DecodeOp ALWAYS rejects it -/
+theorem encode_rejected (op : Op) (ht : op.typed = true) (hn : op.wf = false) :
+    encodeFails op = true ∧ decodeOp (encodeOp op) = .error .wire :=
+  decodeOp_encodeOp_bad ht hn
+
+/-- together: a record a Go program can build arrives as itself exactly when it is well-formed, and it
+    never arrives as another record -/
+theorem decodeOp_encodeOp_iff (op : Op) (ht : op.typed = true) :
+    (decodeOp (encodeOp op) = .ok op ↔ op.wf = true) ∧
+    (∀ op', decodeOp (encodeOp op) = .ok op' → op' = op) := by
+  cases hw : op.wf with
+  | true =>
+    have h := Proofs.ProtoWire.decodeOp_encodeOp hw
+    refine ⟨⟨fun _ => rfl, fun _ => h⟩, ?_⟩
+    intro op' h'
+    rw [h] at h'
+    exact (Except.ok.inj h').symm
+  | false =>
+    have h := (decodeOp_encodeOp_bad ht hw).2
+    refine ⟨⟨fun h' => ?_, fun h' => by cases h'⟩, ?_⟩
+    · rw [h] at h'; cases h'
+    · intro op' h'
+      rw [h] at h'; cases h'
+
+/-- what DecodeOp RETURNS, for any input whatsoever, is a record Marshal accepts: every `string` field and
+    every element of a repeated string is valid UTF-8, every int64 is in range (`okVals` = field-wise
+    `PVal.ok`) — so a replica never receives a name that is not UTF-8, and Encode of a decoded record
+    never fails -/
+theorem decoded_is_encodable (b : Bytes) (op : Op) (h : decodeOp b = .ok op) :
+    encodeFails op = false ∧ ∃ sch, schemaOf op.typ.toNat = some sch ∧ okVals sch op.msg.vals = true :=
+  ⟨decodeOp_encodable h, decodeOp_okVals h⟩
+
+/-- DecodeOp ∘ Encode ∘ DecodeOp = DecodeOp. Whatever bytes a replica accepted (shorter than 2^63, no
+    unknown fields retained): the decoded record is well-formed — byte accounting: the decoded values never
+    hold more bytes than were consumed — so its encoding is the canonical one and decodes to the same record
+    (a replica can ship a record on; non-canonical inputs are normalised after one hop) -/
+theorem decode_reencode (b : Bytes) (op : Op) (h : decodeOp b = .ok op) (hb : b.length < 2 ^ 63)
+    (hu : op.msg.unknown = []) : op.wf = true ∧ decodeOp (encodeOp op) = .ok op := by
+  have hw := decodeOp_wf h hb hu
+  exact ⟨hw, Proofs.ProtoWire.decodeOp_encodeOp hw⟩
+
+/-- hypotheses satisfiable on a non-canonical input (Expiration first and twice, over-long key length) -/
+example : decodeOp [25, 0x20, 5, 0x0a, 0x81, 0x00, 107, 0x20, 7]
+      = .ok { typ := 25, msg := { vals := [.bytes [107], .bytes [], .bool false, .int 7] } } ∧
+    encodeOp { typ := 25, msg := { vals := [.bytes [107], .bytes [], .bool false, .int 7] } } = [25, 0x0a, 1, 107, 0x20, 7] := by
+  decide +kernel
+
+/-- hypotheses satisfiable: typed, not well-formed (an element of HDEL's repeated string is not UTF-8) -/
+example : ({ typ := 6, msg := { vals := [.bytes [104], .list [[102], [0xc3, 0x28], [103]]] } } : Op).typed = true ∧
+    ({ typ := 6, msg := { vals := [.bytes [104], .list [[102], [0xc3, 0x28], [103]]] } } : Op).wf = false ∧
+    encodeOp { typ := 6, msg := { vals := [.bytes [104], .list [[102], [0xc3, 0x28], [103]]] } }
+      = [6, 0x0a, 1, 104, 0x12, 1, 102, 0x12, 2, 0xc3, 0x28] := by
+  decide +kernel
+
+/-- hypotheses satisfiable: a SET record with a two-byte UTF-8 key, a value that is not UTF-8, KeepTTL and
+    a negative deadline; its encoding, byte for byte; a ZUNIONSTORE record with an empty operand name and
+    -0.0 / NaN weights -/
+example : ({ typ := 25, msg := { vals := [.bytes [0xc3, 0xa9], .bytes [0xff, 0x00], .bool true, .int (-1)] } } : Op).wf = true ∧
+    encodeOp { typ := 25, msg := { vals := [.bytes [0xc3, 0xa9], .bytes [0xff, 0x00], .bool true, .int (-1)] } }
+      = [25, 0x0a, 2, 0xc3, 0xa9, 0x12, 2, 0xff, 0x00, 0x18, 1, 0x20, 0xff, 0xff, 0xff, 0xff, 0xff, 0xff, 0xff, 0xff, 0xff, 0x01] ∧
+    ({ typ := 34, msg := { vals := [.bytes [100], .list [[97], [], [98]], .f64s [0x8000000000000000, 0x7ff8000000000001], .bytes [83]] } } : Op).wf = true := by
+  decide +kernel
+
+/-- known finding A-200 inside the model: a record whose key is not valid UTF-8 is not well-formed;
+    Marshal appends the key, reports the error, `Op.Encode` drops the error and ships the truncated
+    message (the value is lost), and DecodeOp rejects what was shipped -/
+theorem encode_invalid_utf8_finding :
+    let op : Op := { typ := 25, msg := { vals := [.bytes [0xff], .bytes [118], .bool false, .int 0] } }
+    op.wf = false ∧ encodeFails op = true ∧ encodeOp op = [25, 0x0a, 1, 0xff] ∧
+    decodeOp (encodeOp op) = .error .wire := by
+  decide +kernel
+
+/-- what DecodeOp tolerates beyond Encode's output (Go's Unmarshal does): fields in any order, the last
+    occurrence of a scalar wins, unknown fields (here number 5, a group holding a varint) are skipped and
+    retained, packed and unpacked doubles mix; re-encoding is canonical, so DecodeOp is not injective -/
+theorem decode_tolerant_examples :
+    decodeOp [25, 0x20, 5, 0x0a, 1, 107, 0x2b, 0x08, 1, 0x2c, 0x20, 7, 0x0a, 1, 108]
+      = .ok { typ := 25, msg := { vals := [.bytes [108], .bytes [], .bool false, .int 7], unknown := [0x2b, 0x08, 1, 0x2c] } } ∧
+    decodeOp [34, 0x19, 0, 0, 0, 0, 0, 0, 0xf0, 0x3f, 0x1a, 8, 0, 0, 0, 0, 0, 0, 0, 0x40]
+      = .ok { typ := 34, msg := { vals := [.bytes [], .list [], .f64s [0x3ff0000000000000, 0x4000000000000000], .bytes []] } } ∧
+    decodeOp [25, 0x8a, 0x00, 1, 107] = decodeOp [25, 0x0a, 1, 107] := by
+  decide +kernel
+
+end Wire
+
+/-! ### the feed through the wire (`Model/FeedWire.lean`)
+
+  `Feed.viaWire` = a feed record as the typed `patch.Op`, `Op.Encode`d to bytes on the primary, `DecodeOp`ed
+  on the replica, rendered again.  `Feed.wireNormal` (decidable; evaluated by the driver for every record a
+  `replicate` line ships, on every run: a record that is not normal makes the model print WIRE-NOT-NORMAL and
+  the run fail): the record's typed form is well-formed (`Op.wf`: UTF-8 names, int64 range) and the record is
+  the canonical text of its typed form.  Under it the wire is the identity, so the replay theorems, which
+  apply records "through their textual fields", hold verbatim for records that went through the bytes. -/
+
+section FeedWire
+open NodisVerif.ProtoWire NodisVerif.Proofs.ProtoWire
+
+/-- a normal record arrives as itself -/
+theorem viaWire_normal (op : FeedOp) (h : Feed.wireNormal op = true) : Feed.viaWire op = some op := by
+  unfold Feed.wireNormal at h
+  cases hw : Feed.toWire op with
+  | none => simp [hw] at h
+  | some w =>
+    simp only [hw, Bool.and_eq_true] at h
+    obtain ⟨hwf, hf⟩ := h
+    cases hfw : Feed.fromWire w with
+    | none => simp [hfw] at hf
+    | some op' =>
+      simp only [hfw, Bool.and_eq_true, beq_iff_eq] at hf
+      obtain ⟨⟨h1, h2⟩, h3⟩ := hf
+      have e : op' = op := by
+        cases op'; cases op
+        simp only at h1 h2 h3
+        subst h1; subst h2; subst h3; rfl
+      simp only [Feed.viaWire, hw, Option.bind_some, Feed.throughWire, Proofs.ProtoWire.decodeOp_encodeOp hwf,
+        hfw, e]
+
+/-- a batch of normal records arrives as itself, hence the replica that applies what arrived ends where
+    the replica that applies the emitted records ends -/
+theorem replicate_through_wire (ops : List FeedOp) (h : ∀ op ∈ ops, Feed.wireNormal op = true) :
+    ops.mapM Feed.viaWire = some ops ∧
+    ∀ (r : MState) (now : Int), (ops.mapM Feed.viaWire).bind (Feed.applyAll r now) = Feed.applyAll r now ops := by
+  have hm : ops.mapM Feed.viaWire = some ops := by
+    induction ops with
+    | nil => rfl
+    | cons op rest ih =>
+      rw [List.mapM_cons, viaWire_normal op (h op (List.mem_cons_self ..)),
+        ih (fun o ho => h o (List.mem_cons_of_mem _ ho))]
+      rfl
+  exact ⟨hm, fun r now => by rw [hm]; rfl⟩
+
+/-- the main theorem through the bytes: the records of a covered call, Encoded, Decoded and then applied,
+    bring the replica to the primary's logical keyspace — provided they are normal (checked on every
+    shipped record of every run) -/
+theorem replay_call_through_wire_partial (c : Call) (hwf : c.WF) {now : Int} {p r : MState} (hs : Same now p r)
+    (hl : p.listeners = true) (hfd : p.feed = []) (hreg : ¬ c.Region (lookup p now))
+    (hn : ∀ op ∈ Feed.emission c.info (c.run p now).2 (c.run p now).1.feed.reverse, Feed.wireNormal op = true) :
+    ∃ r', ((Feed.emission c.info (c.run p now).2 (c.run p now).1.feed.reverse).mapM Feed.viaWire).bind
+        (Feed.applyAll r now) = some r' ∧ Same now (c.run p now).1 r' := by
+  rw [(replicate_through_wire _ hn).2 r now]
+  exact replay_call_partial c hwf hs hl hfd hreg
+
+theorem batchesViaWire_normal (bs : List (List FeedOp × Int))
+    (h : ∀ b ∈ bs, ∀ op ∈ b.1, Feed.wireNormal op = true) : Feed.batchesViaWire bs = some bs := by
+  unfold Feed.batchesViaWire
+  induction bs with
+  | nil => rfl
+  | cons b rest ih =>
+    rw [List.mapM_cons, (replicate_through_wire b.1 (h b (List.mem_cons_self ..))).1,
+      ih (fun c hc => h c (List.mem_cons_of_mem _ hc))]
+    rfl
+
+/-- sequences of calls at non-decreasing times: every batch Encoded, Decoded and applied at the time of its
+    call brings the replica to the primary's logical keyspace (hypothesis as above: the shipped records are
+    normal, which the driver evaluates for every record of every run) -/
+theorem replay_sequence_through_wire_partial (calls : List (Call × Int)) (t : Int) (p r : MState) (hs : Same t p r)
+    (hl : p.listeners = true) (hfd : p.feed = []) (hok : CallsOK t calls p)
+    (hn : ∀ b ∈ (runCalls calls p).2, ∀ op ∈ b.1, Feed.wireNormal op = true) :
+    ∃ r', (Feed.batchesViaWire (runCalls calls p).2).bind (applyBatches r) = some r' ∧
+      Same (lastTime t calls) (runCalls calls p).1 r' := by
+  rw [batchesViaWire_normal _ hn]
+  exact replay_sequence_partial calls t p r hs hl hfd hok
+
+/-- the hypothesis is satisfiable and decided by evaluation: a SET with a deadline, a ZREMRANGEBYSCORE and a
+    ZUNIONSTORE record are normal; a record naming a key that is not UTF-8 is not, and does not arrive (A-200) -/
+example :
+    Feed.wireNormal { typ := 25, key := [107], args := [Bytes.toHex [118], toString false, toString (1700000000000 : Int)] } = true ∧
+    Feed.wireNormal { typ := 31, key := [122], args := [toString (4607182418800017408 : F64), toString (4611686018427387904 : F64), toString (0 : Int)] } = true ∧
+    Feed.wireNormal { typ := 34, key := [100], args := [Bytes.toHex [115, 117, 109], Bytes.toHex [97], Bytes.toHex [98], "|", toString (4607182418800017408 : F64), toString (0 : F64)] } = true ∧
+    Feed.wireNormal { typ := 25, key := [0xff], args := [Bytes.toHex [118], toString false, toString (0 : Int)] } = false ∧
+    Feed.viaWire { typ := 25, key := [0xff], args := [Bytes.toHex [118], toString false, toString (0 : Int)] } = none := by
+  have h25 : schemaOf 25 = some [(1, .str), (2, .bytes), (3, .bool), (4, .int64)] := by decide
+  have h31 : schemaOf 31 = some [(1, .str), (2, .int64), (3, .double), (4, .double)] := by decide
+  have h34 : schemaOf 34 = some [(1, .str), (2, .repStr), (3, .repDouble), (4, .str)] := by decide
+  refine ⟨?_, ?_, ?_, ?_, ?_⟩
+  · simp only [Feed.wireNormal, Feed.toWire, h25, Feed.argsToVals, pB_toHex, pT_toString, pI_toString, List.drop]
+    decide +kernel
+  · simp only [Feed.wireNormal, Feed.toWire, h31, pF_toString, pI_toString]
+    decide +kernel
+  · have hk : (["61", "62", "|", "4607182418800017408", "0"] : List String).takeWhile (· ≠ "|") = ["61", "62"] := by decide
+    have hd : (["61", "62", "|", "4607182418800017408", "0"] : List String).dropWhile (· ≠ "|") = ["|", "4607182418800017408", "0"] := by decide
+    have e1 : Bytes.toHex [97] = "61" := by decide
+    have e2 : Bytes.toHex [98] = "62" := by decide
+    have e3 : toString (4607182418800017408 : F64) = "4607182418800017408" := by decide
+    have e4 : toString (0 : F64) = "0" := by decide
+    have p1 : Feed.pB "61" = some [97] := e1 ▸ pB_toHex [97]
+    have p2 : Feed.pB "62" = some [98] := e2 ▸ pB_toHex [98]
+    have p3 : Feed.pF "4607182418800017408" = some 4607182418800017408 := e3 ▸ pF_toString _
+    have p4 : Feed.pF "0" = some 0 := e4 ▸ pF_toString _
+    simp only [Feed.wireNormal, Feed.toWire, h34, e1, e2, e3, e4, hk, hd, List.drop, List.mapM_cons, List.mapM_nil, p1, p2, p3, p4, pB_toHex]
+    decide +kernel
+  · simp only [Feed.wireNormal, Feed.toWire, h25, Feed.argsToVals, pB_toHex, pT_toString, pI_toString, List.drop]
+    decide +kernel
+  · simp only [Feed.viaWire, Feed.toWire, h25, Feed.argsToVals, pB_toHex, pT_toString, pI_toString, List.drop]
+    decide +kernel
+
+end FeedWire
 
 end NodisVerif.C20
